@@ -359,6 +359,46 @@ Section Interp.
     | o :: t => let '(s', ev) := mstep s o in ev :: mrun s' t
     end.
 
+  (* ---------------------------------------------------------------- facade + CompanionAudio + RaopAudio
+     on ONE core state dispatcher (pyatv/protocols/companion/__init__.py:410-466).  Companion is the
+     protocol the facade relays audio calls to (DEFAULT_PRIORITIES); every level the device reports is
+     announced as UpdatedState.Volume and intercepted by RaopAudio._volume_changed, which forwards it to
+     the receiver at the next stream start.  The device reports its level as a FRACTION `_vol`;
+     CompanionAudio turns it into percent (`_vol * 100.0`) before storing AND before announcing it. *)
+
+  Inductive xop :=
+  | XSet (level : num) | XUp | XDown | XRead      (* through the facade, relayed to CompanionAudio *)
+  | XReport (frac : num)          (* _iMC event with the volume flag; GetVolume answers _vol = frac *)
+  | XNoVol                        (* _iMC event without the volume flag *)
+  | XMissing                      (* GetVolume answer without _vol: the handler dies before changing anything *)
+  | XPump                         (* the event loop runs the queued Volume listeners (facade, RaopAudio) *)
+  | XStream (initial : option num). (* a RAOP stream starts (RaopStream.stream_file) *)
+
+  Record xstate := { cvol : num; xr : rstate }.
+
+  Definition xinit : xstate := {| cvol := zero; xr := rinit |}.
+
+  Definition announce (r : rstate) (v : num) : rstate :=
+    {| ctx := ctx r; pend := pend r ++ [v]; fvol := fvol r |}.
+
+  Definition xstep (s : xstate) (o : xop) : xstate * list event :=
+    match o with
+    | XSet level => if in_range level then (s, [Fwd level]) else (s, [Exc ProtocolError])
+    | XUp | XDown => (s, [Key])
+    | XRead => if in_range (cvol s) then (s, [Ret (cvol s)]) else (s, [Exc ProtocolError])
+    | XReport f => let v := dmul D f (dZ D 100) in ({| cvol := v; xr := announce (xr s) v |}, [])
+    | XNoVol => ({| cvol := zero; xr := announce (xr s) zero |}, [])
+    | XMissing => (s, [])
+    | XPump => let '(r, ev) := rstep (xr s) RPump in ({| cvol := cvol s; xr := r |}, ev)
+    | XStream i => let '(r, ev) := rstep (xr s) (RStream i) in ({| cvol := cvol s; xr := r |}, ev)
+    end.
+
+  Fixpoint xrun (s : xstate) (ops : list xop) : list (list event) :=
+    match ops with
+    | [] => []
+    | o :: t => let '(s', ev) := xstep s o in ev :: xrun s' t
+    end.
+
 End Interp.
 
 Arguments Ret {D} v.
@@ -384,6 +424,15 @@ Arguments MDown {D}.
 Arguments MRead {D}.
 Arguments MReport {D} v.
 Arguments MOther {D} v.
+Arguments XSet {D} level.
+Arguments XUp {D}.
+Arguments XDown {D}.
+Arguments XRead {D}.
+Arguments XReport {D} frac.
+Arguments XNoVol {D}.
+Arguments XMissing {D}.
+Arguments XPump {D}.
+Arguments XStream {D} initial.
 
 (* ------------------------------------------------------------------ guard comparisons on
    the extended values a Python float can take.  Every finite binary64 value is a rational
